@@ -242,7 +242,7 @@ def class_state(chk, repo, rule):
                          if isinstance(s_, ast.Assign) and not all(
                              isinstance(t, ast.Name)
                              and readonly_literal_table(
-                                 repo.mod(rel).tree, c, t.id)
+                                 repo.mod(rel).tree, c, t.id, literal=False)
                              for t in s_.targets)]
                 chk.ob(rule, not state, rel, c,
                        key='no-class-state:' + c.name, qualname=c.name,
